@@ -7,7 +7,7 @@
 // (A (x) J_n, A (x) I_n, factor n^p: the law itself is a checked property of the specification) and the
 // residual identities of the factorisations (documented in the specification MatrixAlgChol).
 //
-// usage: matrix_run machine <behaviours.ndjson> <out.ndjson> [threads=N] [infl=N] [inflonly=0|1]
+// usage: matrix_run machine <behaviours.ndjson> <out.ndjson> [threads=N] [infl=N] [isolate=file]
 //        matrix_run chol    <cases.json>        <out.ndjson> [threads=N] [infl=N]
 //        matrix_run vec     <cases.json>        <out.ndjson>
 // Output: one JSON line per disagreement / crash / refusal, and a last line {"stats":...}.
@@ -224,7 +224,9 @@ static AMatrix* buildFrom(int p, int r, int c, const std::function<double(int, i
       double x = f(i, j);
       if (x != 0.) t.add(i, j, x);
     }
-  t.force(r, c);
+  // dimensions forced by a fictitious zero term in the corner, unless the corner holds a term already
+  // (NF_Triplet::force would add a second term there, which the cs storage does not merge)
+  if (f(r - 1, c - 1) == 0.) t.force(r, c);
   return MatrixSparse::createFromTriplet(t, r, c, p == SPE ? 1 : 0);
 }
 static AMatrix* build(int p, const QMat& q)
@@ -1293,12 +1295,13 @@ static int evalIsolated(const Route& rt, const Node& n, const Node& pn, int p, c
 
 // executes the last operation of node n on the registers 'pre' (which hold the contents of the parent
 // node pn) in storage p.  Returns the new registers (primary route) or nullptr when the branch is cut.
-static Regs* step(int nodeIdx, const Node& n, const Node& pn, int p, const Regs& pre)
+static Regs* step(int nodeIdx, const Node& n, const Node& pn, int p, const Regs& pre, std::vector<char>* okRoutes = nullptr)
 {
   const OpRec& o = n.h.back();
   std::vector<Route> routes = routesOf(o, p, pre);
   Regs* result = nullptr;
   bool primaryOk = true;
+  if (okRoutes) okRoutes->assign(routes.size(), 0);
   for (size_t k = 0; k < routes.size(); k++)
   {
     if (!enter(nodeIdx, p, (int)k, 0, 0, o.op + "/" + routes[k].name))
@@ -1315,6 +1318,7 @@ static Regs* step(int nodeIdx, const Node& n, const Node& pn, int p, const Regs&
     }
     else
       ok = evalRoute(routes[k], n, pn, p, pre, k == 0 ? &result : nullptr);
+    if (okRoutes) (*okRoutes)[k] = ok ? 1 : 0;
     if (!ok && k == 0) primaryOk = false;   // the branch is cut for this storage (the other routes are still evaluated)
   }
   if (!primaryOk) { delete result; return nullptr; }
@@ -1356,7 +1360,7 @@ static ll ipow(ll n, int p) { ll r = 1; for (int i = 0; i < p; i++) r *= n; retu
 
 static int g_infl = 0;
 
-static void inflate(int nodeIdx, const Node& n, const Node& pn)
+static void inflate(int nodeIdx, const Node& n, const Node& pn, int p, const std::vector<char>& okRoutes)
 {
   const OpRec& o = n.h.back();
   char target = targetOf(o.op);
@@ -1366,7 +1370,7 @@ static void inflate(int nodeIdx, const Node& n, const Node& pn)
     if (pw < 0) continue;
     bool ones = kind == 0;
     int N = g_infl;
-    // inflated operands and expectation
+    // inflated operands and expectation:  n^p (small result (x) K)
     Node big, bigPre;
     bigPre.A = kronQ(pn.A, N, ones, 1); bigPre.B = kronQ(pn.B, N, ones, 1); bigPre.v = kronV(pn.v, N, 1);
     ll f = ipow(N, pw);
@@ -1374,43 +1378,47 @@ static void inflate(int nodeIdx, const Node& n, const Node& pn)
     big.A = kronQ(n.A, N, ones, target == 'A' ? f : 1);
     big.B = kronQ(n.B, N, ones, 1);
     big.v = kronV(n.v, N, target == 'v' ? f : 1);
-    for (int p = 0; p < NPROF; p++)
+    std::string variant = std::string(ones ? "kron J_" : "kron I_") + std::to_string(N) + " threads=" + std::to_string(g_threads);
+    if (!enter(nodeIdx, p, 0, 1, kind, o.op + "/build inflated operands")) continue;
+    Regs pre;
+    pre.A = build(p, bigPre.A); pre.B = build(p, bigPre.B); pre.v = buildVec(bigPre.v);
+    std::vector<Route> routes = routesOf(o, p, pre);
+    for (size_t k = 0; k < routes.size() && k < okRoutes.size(); k++)
     {
-      if (!n.pf[p]) continue;
-      if (ones && isSparseProf(p) && (o.op == "AddScalar") ) {}   // all terms stored: allowed
-      if (!enter(nodeIdx, p, 0, 1, kind, o.op + "/inflated")) continue;
-      setGlobalFlagEigen(p != SPC);
-      Regs pre;
-      pre.A = build(p, bigPre.A); pre.B = build(p, bigPre.B); pre.v = buildVec(bigPre.v);
-      std::vector<Route> routes = routesOf(o, p, pre);
-      size_t nroutes = std::min<size_t>(routes.size(), 3);
-      for (size_t k = 0; k < nroutes; k++)
+      if (!okRoutes[k]) continue;   // a route that is wrong on the small case is not inflated
+      if (ISOLATE.count(o.op + "|" + PROFNAME[p] + "|" + routes[k].name)) continue;   // nor a route known to overrun
+      if (!enter(nodeIdx, p, (int)k, 1, kind, o.op + "/" + routes[k].name)) continue;
+      Regs* g = pre.clone();
+      Outcome out;
+      runRoute(routes[k], *g, out);
+      stat("inflated_executed");
+      stat(std::string("infl:") + o.op + ":" + PROFNAME[p]);
+      std::string diff;
+      if (out.crashed) diff = "crash";
+      if (out.exception.empty() && !out.refused && !out.crashed)
       {
-        if (!enter(nodeIdx, p, (int)k, 1, kind, o.op + "/inflated/" + routes[k].name)) continue;
-        Regs* g = pre.clone();
-        Outcome out;
-        runRoute(routes[k], *g, out);
-        stat("inflated_executed");
-        stat(std::string("infl:") + o.op + ":" + PROFNAME[p]);
-        std::string diff;
-        if (out.exception.empty() && !out.refused && !out.crashed)
+        if (sigsetjmp(g_jmp, 1) != 0) { diff = "crash"; out.crashed = (int)g_sig; }
+        else
         {
+          g_armed = 1;
           try { diff = compareRegs(*g, big, !n.ap); } catch (...) { diff = "unreadable"; }
+          g_armed = 0;
         }
-        if (out.crashed) { diff = "crash"; }
-        if (out.crashed || !out.exception.empty() || out.refused || !diff.empty())
-        {
-          stat("disagreements");
-          Value ob = Value::object();
-          ob["register"] = Value(diff);
-          ob["note"] = Value(out.exception);
-          std::string variant = std::string(ones ? "kron J_" : "kron I_") + std::to_string(N) + " threads=" + std::to_string(g_threads);
-          report(out.crashed ? "crash" : !out.exception.empty() ? "exception" : (out.refused ? "refused" : "mismatch"), n, &pn, p, routes[k].name,
-                 diff.empty() ? std::string(1, target) : diff, regsExpected(n), ob,
-                 "inflated operands disagree with n^p (small result (x) K)", variant);
-        }
-        if (!out.crashed) delete g;
       }
+      bool refusal = !out.exception.empty() || out.refused || out.errors > 0;
+      if (refusal && !out.crashed && n.mr[p])
+        stat("refused_as_documented");
+      else if (out.crashed || !out.exception.empty() || out.refused || !diff.empty())
+      {
+        stat("disagreements");
+        Value ob = Value::object();
+        ob["register"] = Value(diff);
+        ob["note"] = Value(out.exception);
+        report(out.crashed ? "crash" : !out.exception.empty() ? "exception" : (out.refused ? "refused" : "mismatch"), n, &pn, p, routes[k].name,
+               diff.empty() ? std::string(1, target) : diff, regsExpected(n), ob,
+               "inflated operands disagree with n^p (small result (x) K)", variant);
+      }
+      if (!out.crashed) delete g;
     }
   }
 }
@@ -1425,8 +1433,10 @@ static void dfs(int nodeIdx, int p, const Regs& regs, bool inflonly)
   {
     const Node& c = NODES[ci];
     if (!c.pf[p]) { stat("steps_not_promised"); continue; }
-    Regs* g = step(ci, c, n, p, regs);
+    std::vector<char> okRoutes;
+    Regs* g = step(ci, c, n, p, regs, &okRoutes);
     stat("steps");
+    if (g_infl > 0 && c.h.size() == 1 && (c.kj >= 0 || c.ki >= 0)) inflate(ci, c, n, p, okRoutes);
     if (g == nullptr) continue;
     // a state whose reading routes disagree is not used further (one root cause, one report)
     bool consistent = inflonly || checkReaders(*g, c, &n, p, ci);
@@ -1438,12 +1448,10 @@ static void dfs(int nodeIdx, int p, const Regs& regs, bool inflonly)
 static void runRoot(int rootIdx, bool inflonly)
 {
   const Node& root = NODES[rootIdx];
-  if (!inflonly || true)
   {
     for (int p = 0; p < NPROF; p++)
     {
       if (!root.pf[p]) continue;
-      if (inflonly) continue;
       if (!enter(rootIdx, p, 0, 0, 0, "build")) continue;
       setGlobalFlagEigen(p != SPC);   // the two sparse back-ends are never mixed (documented restriction)
       Regs regs;
@@ -1457,19 +1465,6 @@ static void runRoot(int rootIdx, bool inflonly)
         continue;
       }
       if (checkReaders(regs, root, nullptr, p, rootIdx)) dfs(rootIdx, p, regs, false);
-    }
-  }
-  if (g_infl > 0)
-  {
-    // inflation of every transition of depth 1 .. of this root (expected values follow from the small case)
-    std::vector<int> stack(root.children.begin(), root.children.end());
-    while (!stack.empty())
-    {
-      int ci = stack.back(); stack.pop_back();
-      const Node& c = NODES[ci];
-      if (c.kj >= 0 || c.ki >= 0) inflate(ci, c, NODES[c.parent]);
-      // only the first operation of a behaviour is inflated (the operands of deeper steps are covered
-      // as initial contents of other behaviours)
     }
   }
 }
@@ -1585,7 +1580,7 @@ static int runContained(const std::vector<int>& roots, const std::string& outPat
       if (o.op == "ProdMatMat") rec["transposeB"] = Value(o.j == 1);
     }
     rec["h"] = histJson(n);
-    if (MARK->phase == 1) rec["variant"] = Value(std::string(MARK->extra == 0 ? "kron J" : "kron I"));
+    if (MARK->phase == 1) rec["variant"] = Value(std::string(MARK->extra == 0 ? "kron J_" : "kron I_") + std::to_string(g_infl) + " threads=" + std::to_string(g_threads));
     if (n.parent >= 0)
     {
       const Node& pn = nodeOf(n.parent);
@@ -1620,7 +1615,7 @@ int main(int argc, char** argv)
 {
   if (argc < 4)
   {
-    fprintf(stderr, "usage: matrix_run machine|chol|vec <in> <out> [threads=N] [infl=N] [inflonly=1]\n");
+    fprintf(stderr, "usage: matrix_run machine|chol|vec <in> <out> [threads=N] [infl=N] [isolate=file]\n");
     return 2;
   }
   std::string mode = argv[1];
@@ -1664,6 +1659,800 @@ int main(int argc, char** argv)
 
 // ------------------------------------------------------------------------------------------------
 // CASES-BEGIN
-int mainChol(int, char**) { return 2; }
-int mainVec(int, char**) { return 2; }
+// ------------------------------------------------------------------------------------------------
+// factorisation cases (MatrixAlgChol.tla) and vector helper cases (MatrixAlgVec.tla)
+
+static Value vecJsonD(const std::vector<double>& v) { return dvecJson(v); }
+static void caseReport(const char* kind, const std::string& op, const std::string& storage, const std::string& route,
+                       const std::string& caseName, const Value& input, const Value& expected, const Value& observed,
+                       const std::string& note = "")
+{
+  Value rec = Value::object();
+  rec["kind"] = Value(kind);
+  rec["id"] = Value(0);
+  rec["op"] = Value(op);
+  rec["storage"] = Value(storage);
+  rec["route"] = Value(route);
+  rec["what"] = Value("value");
+  rec["shape"] = Value("square");
+  rec["case"] = Value(caseName);
+  rec["input"] = input;
+  rec["expected"] = expected;
+  rec["observed"] = observed;
+  if (!note.empty()) rec["note"] = Value(note);
+  fprintf(OUT, "%s\n", vj::dump(rec).c_str());
+  fflush(OUT);
+  stat("disagreements");
+}
+
+// runs one check; f returns true when it agrees; faults and exceptions are disagreements
+struct CaseCtx
+{
+  std::string caseName;
+  std::string storage;
+  Value input;
+};
+static void caseCheck(const CaseCtx& cx, const std::string& op, const std::string& route, const Value& expected,
+                      const std::function<bool(Value&)>& f)
+{
+  stat("case_checks");
+  stat(std::string("fn:") + op);
+  Value observed;
+  long e0 = g_errcount;
+  g_lasterr.clear();
+  if (sigsetjmp(g_jmp, 1) != 0)
+  {
+    caseReport("crash", op, cx.storage, route, cx.caseName, cx.input, expected, Value((int)g_sig), "fault inside the library call");
+    return;
+  }
+  g_armed = 1;
+  bool ok = false;
+  std::string exc;
+  try { ok = f(observed); }
+  catch (const AException& e) { exc = std::string("AException: ") + e.what(); }
+  catch (const std::exception& e) { exc = std::string("std::exception: ") + e.what(); }
+  catch (const char* s) { exc = std::string("throw: ") + s; }
+  catch (const ExitRequested&) { exc = "messageAbort"; }
+  catch (...) { exc = "unknown exception"; }
+  g_armed = 0;
+  if (!exc.empty()) { caseReport("exception", op, cx.storage, route, cx.caseName, cx.input, expected, Value(exc)); return; }
+  if (!ok)
+  {
+    std::string note = (g_errcount > e0) ? "library error message: " + g_lasterr : "";
+    caseReport(g_errcount > e0 ? "refused" : "mismatch", op, cx.storage, route, cx.caseName, cx.input, expected, observed, note);
+  }
+}
+
+static std::vector<std::vector<double>> matOf(const Value& v)
+{
+  std::vector<std::vector<double>> m;
+  for (auto& row : v.arr) m.push_back(row.doubles());
+  return m;
+}
+static bool nearD(double a, double b, double tol = TOL) { return !std::isnan(a) && !std::isinf(a) && std::fabs(a - b) <= tol * std::max(1., std::fabs(b)); }
+static bool nearVec(const std::vector<double>& a, const std::vector<double>& b, double tol = TOL)
+{
+  if (a.size() != b.size()) return false;
+  for (size_t i = 0; i < a.size(); i++) if (!nearD(a[i], b[i], tol)) return false;
+  return true;
+}
+static bool nearMat(const AMatrix& a, const std::vector<std::vector<double>>& e, double den = 1., double tol = TOL)
+{
+  int r = (int)e.size(), c = r ? (int)e[0].size() : 0;
+  if (a.getNRows() != r || a.getNCols() != c) return false;
+  for (int i = 0; i < r; i++) for (int j = 0; j < c; j++) if (!nearD(a.getValue(i, j), e[i][j] / den, tol)) return false;
+  return true;
+}
+static Value matObs(const AMatrix& a) { return dmatJson(readBack(&a)); }
+static VectorDouble VD(const std::vector<double>& v) { return VectorDouble(v.begin(), v.end()); }
+template <class M> static void fillDense(M& m, const std::vector<std::vector<double>>& e)
+{
+  for (size_t i = 0; i < e.size(); i++) for (size_t j = 0; j < e[i].size(); j++) m.setValue((int)i, (int)j, e[i][j]);
+}
+static MatrixSparse* sparseOf(const std::vector<std::vector<double>>& e, int eig, int kron = 1)
+{
+  NF_Triplet t;
+  int n = (int)e.size(), c = n ? (int)e[0].size() : 0;
+  for (int j = 0; j < c; j++) for (int i = 0; i < n; i++)
+    if (e[i][j] != 0.) for (int a = 0; a < kron; a++) t.add(i * kron + a, j * kron + a, e[i][j]);
+  if (e[n - 1][c - 1] == 0.) t.force(n * kron, c * kron);
+  return MatrixSparse::createFromTriplet(t, n * kron, c * kron, eig);
+}
+
+static int g_caseInfl = 0;
+
+static void runCholDense(const Value& c)
+{
+  int n = c.at("n").i();
+  auto L = matOf(c.at("L")), A = matOf(c.at("A"));
+  std::vector<double> y = c.at("y").doubles(), Ly = c.at("Ly").doubles(), Lty = c.at("Lty").doubles(), Ay = c.at("Ay").doubles();
+  CaseCtx cx;
+  cx.storage = "dense";
+  cx.caseName = "cholesky n=" + std::to_string(n);
+  Value in = Value::object(); in["L"] = c.at("L"); in["y"] = c.at("y");
+  cx.input = in;
+  MatrixSquareSymmetric S(n);
+  for (int i = 0; i < n; i++) for (int j = 0; j <= i; j++) S.setValue(i, j, A[i][j]);
+  CholeskyDense ch(&S);
+  caseCheck(cx, "CholeskyDense::isReady", "constructor", Value(true), [&](Value& o) { o = Value(ch.isReady()); return ch.isReady(); });
+  if (!ch.isReady()) return;
+  caseCheck(cx, "CholeskyDense::getLowerTriangle", "packed", c.at("L"), [&](Value& o) {
+    VectorDouble tl = ch.getLowerTriangle();
+    o = dvecJson(toStd(tl));
+    if ((int)tl.size() != n * (n + 1) / 2) return false;
+    for (int j = 0; j < n; j++) for (int i = j; i < n; i++) if (!nearD(tl[j * n + i - j * (j + 1) / 2], L[i][j])) return false;
+    return true; });
+  caseCheck(cx, "CholeskyDense::getLowerTriangle", "(i,j)", c.at("L"), [&](Value& o) {
+    bool ok = true; Value rows = Value::array();
+    for (int i = 0; i < n; i++) { Value row = Value::array(); for (int j = 0; j < n; j++) { double x = ch.getLowerTriangle(i, j); row.push(Value(x)); if (!nearD(x, L[i][j])) ok = false; } rows.push(row); }
+    o = rows; return ok; });
+  auto Linv = matOf(c.at("Linv").at("m")); double dinv = c.at("Linv").at("d").d();
+  caseCheck(cx, "CholeskyDense::getUpperTriangleInverse", "packed", c.at("Linv"), [&](Value& o) {
+    VectorDouble xl = ch.getUpperTriangleInverse();
+    o = dvecJson(toStd(xl));
+    if ((int)xl.size() != n * (n + 1) / 2) return false;
+    for (int j = 0; j < n; j++) for (int i = j; i < n; i++) if (!nearD(xl[j * n + i - j * (j + 1) / 2], Linv[i][j] / dinv)) return false;
+    return true; });
+  caseCheck(cx, "CholeskyDense::getUpperTriangleInverse", "(i,j)", c.at("Linv"), [&](Value& o) {
+    bool ok = true; Value rows = Value::array();
+    for (int i = 0; i < n; i++) { Value row = Value::array(); for (int j = 0; j < n; j++) { double x = ch.getUpperTriangleInverse(i, j); row.push(Value(x)); if (!nearD(x, Linv[i][j] / dinv)) ok = false; } rows.push(row); }
+    o = rows; return ok; });
+  auto vecOp = [&](const char* name, const std::vector<double>& in, const std::vector<double>& expect, int (ACholesky::*fn)(const constvect, vect) const) {
+    caseCheck(cx, std::string("ACholesky::") + name, "dense", Value::arrayOf(expect), [&](Value& o) {
+      VectorDouble x = VD(in), out(n, 7.);
+      int st = (ch.*fn)(constvect(x.data(), x.size()), vect(out.data(), out.size()));
+      o = dvecJson(toStd(out));
+      return st == 0 && nearVec(toStd(out), expect); });
+  };
+  vecOp("LX", y, Ly, &ACholesky::LX);
+  vecOp("LtX", y, Lty, &ACholesky::LtX);
+  vecOp("InvLX", Ly, y, &ACholesky::InvLX);
+  vecOp("InvLtX", Lty, y, &ACholesky::InvLtX);
+  vecOp("solve", Ay, y, &ACholesky::solve);
+  caseCheck(cx, "CholeskyDense::addLX", "accumulates", Value::arrayOf(Ly), [&](Value& o) {
+    VectorDouble x = VD(y), out(n, 1.);
+    ch.addLX(constvect(x.data(), x.size()), vect(out.data(), out.size()));
+    o = dvecJson(toStd(out));
+    for (int i = 0; i < n; i++) if (!nearD(out[i], Ly[i] + 1.)) return false;
+    return true; });
+  caseCheck(cx, "ASimulable::evalSimulate", "dense", Value::arrayOf(y), [&](Value& o) {
+    VectorDouble out = ch.evalSimulate(VD(Lty));
+    o = dvecJson(toStd(out));
+    return nearVec(toStd(out), y); });
+  caseCheck(cx, "ALinearOp::evalDirect", "dense", Value::arrayOf(Ly), [&](Value& o) {
+    VectorDouble out = ch.evalDirect(VD(y));
+    o = dvecJson(toStd(out));
+    return nearVec(toStd(out), Ly); });
+  caseCheck(cx, "ACholesky::solveMatrix", "dense", c.at("R"), [&](Value& o) {
+    auto AR = matOf(c.at("AR")), R = matOf(c.at("R"));
+    MatrixRectangular b(n, 2), x;
+    fillDense(b, AR);
+    int st = ch.solveMatrix(b, x);
+    o = matObs(x);
+    return st == 0 && nearMat(x, R); });
+  caseCheck(cx, "CholeskyDense::computeLogDeterminant", "dense", c.at("det"), [&](Value& o) {
+    double ld = ch.computeLogDeterminant();
+    o = Value(std::exp(ld));
+    return nearD(std::exp(ld), c.at("det").d()); });
+  // triangular products
+  const char* pm[6] = {"P0", "P1", "P2", "P3", "P4", "P5"};
+  const char* pa[6] = {"R", "R", "Q", "Q", "W", "W"};
+  for (int mode = 0; mode < 6; mode++)
+    caseCheck(cx, "CholeskyDense::matProductInPlace", "mode " + std::to_string(mode), c.at(pm[mode]), [&](Value& o) {
+      auto a = matOf(c.at(pa[mode])), e = matOf(c.at(pm[mode]));
+      MatrixRectangular am((int)a.size(), (int)a[0].size()), x;
+      fillDense(am, a);
+      ch.matProductInPlace(mode, am, x);
+      o = matObs(x);
+      return nearMat(x, e); });
+  for (int mode = 0; mode < 2; mode++)
+  {
+    caseCheck(cx, "CholeskyDense::normMatInPlace", "mode " + std::to_string(mode), c.at(mode == 0 ? "N0" : "N1"), [&](Value& o) {
+      auto s = matOf(c.at("S")), e = matOf(c.at(mode == 0 ? "N0" : "N1"));
+      MatrixSquareSymmetric sm(n), b;
+      for (int i = 0; i < n; i++) for (int j = 0; j <= i; j++) sm.setValue(i, j, s[i][j]);
+      ch.normMatInPlace(mode, n, sm, b);
+      o = matObs(b);
+      return nearMat(b, e); });
+    caseCheck(cx, "CholeskyDense::normMatInPlace", "mode " + std::to_string(mode) + " (identity)", c.at(mode == 0 ? "N0I" : "N1I"), [&](Value& o) {
+      auto e = matOf(c.at(mode == 0 ? "N0I" : "N1I"));
+      MatrixSquareSymmetric b;
+      ch.normMatInPlace(mode, n, MatrixSquareSymmetric(), b);
+      o = matObs(b);
+      return nearMat(b, e); });
+  }
+  caseCheck(cx, "CholeskyDense::setMatrix", "after default construction", Value::arrayOf(y), [&](Value& o) {
+    CholeskyDense c2;
+    if (c2.setMatrix(&S) != 0) return false;
+    VectorDouble x = VD(Ay), out(n, 7.);
+    c2.solve(constvect(x.data(), x.size()), vect(out.data(), out.size()));
+    o = dvecJson(toStd(out));
+    return nearVec(toStd(out), y); });
+  caseCheck(cx, "MatrixSquareSymmetric::createFromTLTU", "from the factor", c.at("A"), [&](Value& o) {
+    VectorDouble tl = ch.getLowerTriangle();
+    MatrixSquareSymmetric* m = MatrixSquareSymmetric::createFromTLTU(n, tl);
+    o = matObs(*m);
+    bool ok = nearMat(*m, A);
+    delete m; return ok; });
+  caseCheck(cx, "MatrixSquareSymmetric::createFromTriangle", "mode 0 (lower)", c.at("L"), [&](Value& o) {
+    VectorDouble tl = ch.getLowerTriangle();
+    MatrixSquareSymmetric* m = MatrixSquareSymmetric::createFromTriangle(0, n, tl);
+    o = matObs(*m);
+    bool ok = true;   // a symmetric storage holds the lower triangle mirrored
+    for (int i = 0; i < n; i++) for (int j = 0; j <= i; j++) if (!nearD(m->getValue(i, j), L[i][j])) ok = false;
+    delete m; return ok; });
+  if (g_caseInfl > 1)
+  {
+    int N = g_caseInfl;
+    caseCheck(cx, "ACholesky::solve", "dense, A (x) I_" + std::to_string(N) + " threads=" + std::to_string(g_threads), Value::arrayOf(y), [&](Value& o) {
+      MatrixSquareSymmetric big(n * N);
+      for (int i = 0; i < n; i++) for (int j = 0; j <= i; j++) for (int a = 0; a < N; a++) big.setValue(i * N + a, j * N + a, A[i][j]);
+      CholeskyDense cb(&big);
+      VectorDouble x(n * N), out(n * N, 7.);
+      for (int i = 0; i < n; i++) for (int a = 0; a < N; a++) x[i * N + a] = Ay[i];
+      cb.solve(constvect(x.data(), x.size()), vect(out.data(), out.size()));
+      bool ok = true;
+      for (int i = 0; i < n; i++) for (int a = 0; a < N; a++) if (!nearD(out[i * N + a], y[i])) ok = false;
+      double ld = cb.computeLogDeterminant();
+      if (!nearD(std::exp(ld / N), c.at("det").d())) ok = false;
+      o = Value(std::exp(ld / N));
+      return ok; });
+  }
+}
+
+static void runCholSparse(const Value& c, int eig)
+{
+  int n = c.at("n").i();
+  auto A = matOf(c.at("A"));
+  std::vector<double> y = c.at("y").doubles(), Ay = c.at("Ay").doubles();
+  CaseCtx cx;
+  cx.storage = eig ? "spe" : "spc";
+  cx.caseName = "cholesky n=" + std::to_string(n);
+  Value in = Value::object(); in["L"] = c.at("L"); in["y"] = c.at("y");
+  cx.input = in;
+  setGlobalFlagEigen(eig != 0);
+  MatrixSparse* S = sparseOf(A, eig);
+  CholeskySparse ch(S);
+  caseCheck(cx, "CholeskySparse::isReady", "constructor", Value(true), [&](Value& o) { o = Value(ch.isReady()); return ch.isReady(); });
+  if (!ch.isReady()) { delete S; return; }
+  auto apply = [&](int (ACholesky::*fn)(const constvect, vect) const, const std::vector<double>& in, std::vector<double>& out) {
+    VectorDouble x = VD(in), o(n, 7.);
+    int st = (ch.*fn)(constvect(x.data(), x.size()), vect(o.data(), o.size()));
+    out = toStd(o);
+    return st; };
+  caseCheck(cx, "ACholesky::solve", "sparse", Value::arrayOf(y), [&](Value& o) {
+    std::vector<double> out; int st = apply(&ACholesky::solve, Ay, out);
+    o = dvecJson(out); return st == 0 && nearVec(out, y); });
+  caseCheck(cx, "CholeskySparse::computeLogDeterminant", "sparse", c.at("det"), [&](Value& o) {
+    double ld = ch.computeLogDeterminant();
+    o = Value(std::exp(ld)); return nearD(std::exp(ld), c.at("det").d()); });
+  // simulation: X = [InvLtX(e_k)] satisfies X^T A X = I (covariance A^-1)
+  caseCheck(cx, "ACholesky::InvLtX", "X^T A X = I", Value("identity"), [&](Value& o) {
+    std::vector<std::vector<double>> X(n);
+    for (int k = 0; k < n; k++) { std::vector<double> e(n, 0.); e[k] = 1.; if (apply(&ACholesky::InvLtX, e, X[k]) != 0) return false; }
+    bool ok = true; Value rows = Value::array();
+    for (int a = 0; a < n; a++) { Value row = Value::array(); for (int b = 0; b < n; b++) {
+      double s = 0; for (int i = 0; i < n; i++) for (int j = 0; j < n; j++) s += X[a][i] * A[i][j] * X[b][j];
+      row.push(Value(s)); if (!nearD(s, a == b ? 1. : 0.)) ok = false; } rows.push(row); }
+    o = rows; return ok; });
+  caseCheck(cx, "ASimulable::evalSimulate", "X^T A X = I", Value("identity"), [&](Value& o) {
+    std::vector<std::vector<double>> X(n);
+    for (int k = 0; k < n; k++) { VectorDouble e(n, 0.); e[k] = 1.; X[k] = toStd(ch.evalSimulate(e)); if ((int)X[k].size() != n) return false; }
+    bool ok = true;
+    for (int a = 0; a < n; a++) for (int b = 0; b < n; b++) {
+      double s = 0; for (int i = 0; i < n; i++) for (int j = 0; j < n; j++) s += X[a][i] * A[i][j] * X[b][j];
+      if (!nearD(s, a == b ? 1. : 0.)) ok = false; }
+    o = Value(ok); return ok; });
+  if (eig)
+  {
+    // M = [LX(e_k)] : M M^T = A ; LtX = M^T ; InvLX = M^-1 ; InvLtX = M^-T
+    std::vector<std::vector<double>> M(n);   // M[k] = column k
+    bool haveM = true;
+    caseCheck(cx, "ACholesky::LX", "M M^T = A", c.at("A"), [&](Value& o) {
+      for (int k = 0; k < n; k++) { std::vector<double> e(n, 0.); e[k] = 1.; if (apply(&ACholesky::LX, e, M[k]) != 0) { haveM = false; return false; } }
+      bool ok = true; Value rows = Value::array();
+      for (int i = 0; i < n; i++) { Value row = Value::array(); for (int j = 0; j < n; j++) {
+        double s = 0; for (int k = 0; k < n; k++) s += M[k][i] * M[k][j];
+        row.push(Value(s)); if (!nearD(s, A[i][j])) ok = false; } rows.push(row); }
+      o = rows; if (!ok) haveM = false; return ok; });
+    if (haveM)
+    {
+      caseCheck(cx, "ACholesky::LtX", "LtX(y) = M^T y", Value("M^T y"), [&](Value& o) {
+        std::vector<double> out; if (apply(&ACholesky::LtX, y, out) != 0) return false;
+        o = dvecJson(out);
+        for (int k = 0; k < n; k++) { double s = 0; for (int i = 0; i < n; i++) s += M[k][i] * y[i]; if (!nearD(out[k], s)) return false; }
+        return true; });
+      caseCheck(cx, "ACholesky::InvLX", "InvLX(LX(y)) = y", Value::arrayOf(y), [&](Value& o) {
+        std::vector<double> t, out; if (apply(&ACholesky::LX, y, t) != 0 || apply(&ACholesky::InvLX, t, out) != 0) return false;
+        o = dvecJson(out); return nearVec(out, y); });
+      caseCheck(cx, "ACholesky::InvLtX", "InvLtX(LtX(y)) = y", Value::arrayOf(y), [&](Value& o) {
+        std::vector<double> t, out; if (apply(&ACholesky::LtX, y, t) != 0 || apply(&ACholesky::InvLtX, t, out) != 0) return false;
+        o = dvecJson(out); return nearVec(out, y); });
+    }
+  }
+  else
+  {
+    auto Ainv = matOf(c.at("Ainv").at("m")); double dA = c.at("Ainv").at("d").d();
+    caseCheck(cx, "CholeskySparse::stdev", "variance = diag(A^-1)", c.at("Ainv"), [&](Value& o) {
+      VectorDouble v(n, 7.);
+      int st = ch.stdev(v, false);
+      o = dvecJson(toStd(v));
+      if (st != 0) return false;
+      for (int i = 0; i < n; i++) if (!nearD(v[i], Ainv[i][i] / dA)) return false;
+      return true; });
+    caseCheck(cx, "CholeskySparse::stdev", "standard deviation squared = diag(A^-1)", c.at("Ainv"), [&](Value& o) {
+      VectorDouble v(n, 7.);
+      int st = ch.stdev(v, true);
+      o = dvecJson(toStd(v));
+      if (st != 0) return false;
+      for (int i = 0; i < n; i++) if (!nearD(v[i] * v[i], Ainv[i][i] / dA)) return false;
+      return true; });
+  }
+  if (g_caseInfl > 1)
+  {
+    int N = g_caseInfl;
+    caseCheck(cx, "ACholesky::solve", "sparse, A (x) I_" + std::to_string(N) + " threads=" + std::to_string(g_threads), Value::arrayOf(y), [&](Value& o) {
+      MatrixSparse* big = sparseOf(A, eig, N);
+      CholeskySparse cb(big);
+      VectorDouble x(n * N), out(n * N, 7.);
+      for (int i = 0; i < n; i++) for (int a = 0; a < N; a++) x[i * N + a] = Ay[i];
+      cb.solve(constvect(x.data(), x.size()), vect(out.data(), out.size()));
+      bool ok = true;
+      for (int i = 0; i < n; i++) for (int a = 0; a < N; a++) if (!nearD(out[i * N + a], y[i])) ok = false;
+      double ld = cb.computeLogDeterminant();
+      if (!nearD(std::exp(ld / N), c.at("det").d())) ok = false;
+      o = Value(std::exp(ld / N));
+      delete big;
+      return ok; });
+  }
+  delete S;
+  setGlobalFlagEigen(true);
+}
+
+static void runLU(const Value& c)
+{
+  int n = c.at("n").i();
+  auto A = matOf(c.at("A")), Lu = matOf(c.at("Lu")), U = matOf(c.at("U"));
+  CaseCtx cx; cx.storage = "dense"; cx.caseName = "LU n=" + std::to_string(n);
+  Value in = Value::object(); in["A"] = c.at("A"); cx.input = in;
+  Value ex = Value::object(); ex["tls"] = c.at("Lu"); ex["tus"] = c.at("U");
+  caseCheck(cx, "MatrixSquareGeneral::decomposeLU", "no pivoting", ex, [&](Value& o) {
+    MatrixSquareGeneral a(n), tls(n), tus(n);
+    fillDense(a, A);
+    int st = a.decomposeLU(tls, tus);
+    Value ob = Value::object(); ob["status"] = Value(st); ob["tls"] = matObs(tls); ob["tus"] = matObs(tus); o = ob;
+    return st == 0 && nearMat(tls, Lu) && nearMat(tus, U); });
+}
+
+static void eigenResiduals(const CaseCtx& cx, const std::string& op, const std::vector<std::vector<double>>& A,
+                           const std::vector<std::vector<double>>* B, const VectorDouble& val, const MatrixSquareGeneral* vec,
+                           double trExp, double detExp, const Value& expected)
+{
+  int n = (int)A.size();
+  caseCheck(cx, op, "residual identities", expected, [&](Value& o) {
+    Value ob = Value::object();
+    ob["values"] = dvecJson(toStd(val));
+    if (vec != nullptr) ob["vectors"] = matObs(*vec);
+    o = ob;
+    if ((int)val.size() != n || vec == nullptr || vec->getNRows() != n || vec->getNCols() != n) return false;
+    double scale = 1.;
+    for (int i = 0; i < n; i++) for (int j = 0; j < n; j++) scale = std::max(scale, std::fabs(A[i][j]));
+    double tol = 1e-9 * scale;
+    // A v_k = lambda_k (B) v_k
+    for (int k = 0; k < n; k++)
+      for (int i = 0; i < n; i++)
+      {
+        double l = 0, r = 0;
+        for (int j = 0; j < n; j++)
+        {
+          l += A[i][j] * vec->getValue(j, k);
+          r += (B ? (*B)[i][j] : (i == j ? 1. : 0.)) * vec->getValue(j, k);
+        }
+        if (!(std::fabs(l - val[k] * r) <= tol * std::max(1., std::fabs(val[k])))) return false;
+      }
+    // V^T (B) V = I
+    for (int a = 0; a < n; a++) for (int b = 0; b < n; b++)
+    {
+      double s = 0;
+      for (int i = 0; i < n; i++) for (int j = 0; j < n; j++) s += vec->getValue(i, a) * (B ? (*B)[i][j] : (i == j ? 1. : 0.)) * vec->getValue(j, b);
+      if (!(std::fabs(s - (a == b ? 1. : 0.)) <= 1e-9)) return false;
+    }
+    double sum = 0, prod = 1;
+    for (int k = 0; k < n; k++) { sum += val[k]; prod *= val[k]; }
+    if (!(std::fabs(sum - trExp) <= tol * n)) return false;
+    if (!(std::fabs(prod - detExp) <= 1e-8 * std::max(1., std::pow(scale, n)))) return false;
+    return true; });
+}
+
+static void runEigen(const Value& c)
+{
+  int n = c.at("n").i();
+  auto A = matOf(c.at("A"));
+  CaseCtx cx; cx.storage = "sym"; cx.caseName = "eigen n=" + std::to_string(n);
+  Value in = Value::object(); in["A"] = c.at("A"); cx.input = in;
+  MatrixSquareSymmetric S(n);
+  for (int i = 0; i < n; i++) for (int j = 0; j <= i; j++) S.setValue(i, j, A[i][j]);
+  int st = -1;
+  caseCheck(cx, "MatrixSquareSymmetric::computeEigen", "status", Value(0), [&](Value& o) { st = S.computeEigen(); o = Value(st); return st == 0; });
+  if (st != 0) return;
+  VectorDouble val = S.getEigenValues();
+  const MatrixSquareGeneral* vec = S.getEigenVectors();
+  Value ex = Value::object(); ex["trace"] = c.at("tr"); ex["det"] = c.at("det");
+  eigenResiduals(cx, "MatrixSquareSymmetric::computeEigen", A, nullptr, val, vec, c.at("tr").d(), c.at("det").d(), ex);
+  if (c.at("known").boolean())
+    caseCheck(cx, "MatrixSquareSymmetric::getEigenValues", "known spectrum (as a multiset)", c.at("spectrum"), [&](Value& o) {
+      std::vector<double> v = toStd(val), e = c.at("spectrum").doubles();
+      o = dvecJson(v);
+      std::sort(v.begin(), v.end()); std::sort(e.begin(), e.end());
+      return nearVec(v, e, 1e-9 * 20); });
+  caseCheck(cx, "AMatrix::makePositiveColumn", "eigen vectors (optionPositive)", Value("column sums >= 0"), [&](Value& o) {
+    if (vec == nullptr) return false;
+    for (int k = 0; k < n; k++) { double s = 0; for (int i = 0; i < n; i++) s += vec->getValue(i, k); if (s < -1e-9) { o = Value(s); return false; } }
+    return true; });
+  if (c.at("det").d() != 0.)
+  {
+    caseCheck(cx, "MatrixSquareSymmetric::isDefinitePositive", "non singular", c.at("spd"), [&](Value& o) {
+      MatrixSquareSymmetric T(S); bool b = T.isDefinitePositive(); o = Value(b); return b == c.at("spd").boolean(); });
+    caseCheck(cx, "MatrixSquareSymmetric::computeGeneralizedInverse", "non singular", c.at("inv"), [&](Value& o) {
+      MatrixSquareSymmetric T(S), R(n);
+      int s2 = T.computeGeneralizedInverse(R);
+      o = matObs(R);
+      return s2 == 0 && nearMat(R, matOf(c.at("inv").at("m")), c.at("inv").at("d").d(), 1e-8); });
+  }
+}
+
+static void runGenEigen(const Value& c)
+{
+  int n = c.at("n").i();
+  auto A = matOf(c.at("A")), B = matOf(c.at("B"));
+  CaseCtx cx; cx.storage = "sym"; cx.caseName = "generalised eigen n=" + std::to_string(n);
+  Value in = Value::object(); in["A"] = c.at("A"); in["B"] = c.at("B"); cx.input = in;
+  MatrixSquareSymmetric S(n), T(n);
+  for (int i = 0; i < n; i++) for (int j = 0; j <= i; j++) { S.setValue(i, j, A[i][j]); T.setValue(i, j, B[i][j]); }
+  int st = -1;
+  caseCheck(cx, "MatrixSquareSymmetric::computeGeneralizedEigen", "status", Value(0), [&](Value& o) { st = S.computeGeneralizedEigen(T); o = Value(st); return st == 0; });
+  if (st != 0) return;
+  Value ex = Value::object(); ex["trace"] = Value(c.at("trnum").d() / c.at("trden").d()); ex["det"] = Value(c.at("detnum").d() / c.at("detden").d());
+  eigenResiduals(cx, "MatrixSquareSymmetric::computeGeneralizedEigen", A, &B, S.getEigenValues(), S.getEigenVectors(),
+                 c.at("trnum").d() / c.at("trden").d(), c.at("detnum").d() / c.at("detden").d(), ex);
+}
+
+int mainChol(int argc, char** argv)
+{
+  auto opts = parseOpts(argc, argv, 4);
+  int threads = opts.count("threads") ? atoi(opts["threads"].c_str()) : 0;
+  g_caseInfl = opts.count("infl") ? atoi(opts["infl"].c_str()) : 0;
+  setupLibrary(threads);
+  Value cases = vj::readFile(argv[2]);
+  OUT = fopen(argv[3], "w");
+  if (!OUT) throw std::runtime_error("cannot write output");
+  // every case in a child process (a fault that cannot be recovered is a recorded crash)
+  for (size_t i = 0; i < cases.arr.size(); i++)
+  {
+    const Value& c = cases.arr[i];
+    std::string kind = c.at("kind").s();
+    fflush(OUT);
+    int fd[2];
+    if (pipe(fd) != 0) return 3;
+    pid_t pid = fork();
+    if (pid == 0)
+    {
+      close(fd[0]);
+      STATS.clear();
+      if (kind == "chol") { runCholDense(c); runCholSparse(c, 1); runCholSparse(c, 0); }
+      else if (kind == "lu") runLU(c);
+      else if (kind == "eigen") runEigen(c);
+      else if (kind == "geneigen") runGenEigen(c);
+      fflush(OUT);
+      FILE* w = fdopen(fd[1], "w");
+      for (auto& kv : STATS) fprintf(w, "%s\t%ld\n", kv.first.c_str(), kv.second);
+      fclose(w);
+      _exit(0);
+    }
+    close(fd[1]);
+    FILE* r = fdopen(fd[0], "r");
+    char key[300]; long v;
+    std::map<std::string, long> got;
+    while (fscanf(r, "%299[^\t]\t%ld\n", key, &v) == 2) got[key] = v;
+    fclose(r);
+    int status = 0;
+    waitpid(pid, &status, 0);
+    if (!(WIFEXITED(status) && WEXITSTATUS(status) == 0))
+    {
+      CaseCtx cx; cx.storage = "dense"; cx.caseName = kind + " case " + std::to_string(i); cx.input = c;
+      caseReport("crash", kind, "any", "case process died", cx.caseName, c, Value(), Value(WIFSIGNALED(status) ? WTERMSIG(status) : -1));
+    }
+    for (auto& kv : got) STATS[kv.first] += kv.second;
+    STATS["cases"]++;
+    STATS[std::string("cases_") + kind]++;
+  }
+  writeStats();
+  fclose(OUT);
+  return 0;
+}
+
+// ------------------------------------------------------------------------------------------------
+// vector helpers
+
+static double g_na = 999999.;
+static VectorDouble vdOf(const Value& v)
+{
+  VectorDouble r;
+  for (auto& e : v.arr) r.push_back(e.d() == g_na ? TEST : e.d());
+  return r;
+}
+static VectorInt viOf(const Value& v)
+{
+  VectorInt r;
+  for (auto& e : v.arr) r.push_back(e.d() == g_na ? ITEST : e.i());
+  return r;
+}
+static std::vector<double> stdOf(const Value& v)
+{
+  std::vector<double> r;
+  for (auto& e : v.arr) r.push_back(e.d() == g_na ? TEST : e.d());
+  return r;
+}
+static std::vector<double> intsToD(const VectorInt& v) { return std::vector<double>(v.begin(), v.end()); }
+static bool sameExact(const std::vector<double>& a, const std::vector<double>& b)
+{
+  if (a.size() != b.size()) return false;
+  for (size_t i = 0; i < a.size(); i++) if (!(a[i] == b[i])) return false;
+  return true;
+}
+
+static void runVecCase(const Value& c)
+{
+  CaseCtx cx; cx.storage = "vector";
+  cx.caseName = "u=" + vj::dump(c.at("u"));
+  Value in = Value::object(); in["u"] = c.at("u"); in["w"] = c.at("w"); cx.input = in;
+  const VectorDouble u = vdOf(c.at("u")), w = vdOf(c.at("w"));
+  const VectorInt ui = viOf(c.at("u")), wi = viOf(c.at("w"));
+  int n = c.at("n").i(), nd = c.at("nd").i();
+  bool clean = c.at("clean").boolean();
+  auto num = [&](const std::string& op, const std::string& route, const char* key, const std::function<double()>& f, bool exact = true) {
+    caseCheck(cx, op, route, c.at(key), [&](Value& o) { double x = f(); o = Value(x); return exact ? x == c.at(key).d() : nearD(x, c.at(key).d()); }); };
+  auto rat = [&](const std::string& op, const std::string& route, const char* key, const std::function<double()>& f) {
+    caseCheck(cx, op, route, c.at(key), [&](Value& o) { double x = f(); o = Value(x); return nearD(x, c.at(key).arr[0].d() / c.at(key).arr[1].d(), 1e-12); }); };
+  auto vec = [&](const std::string& op, const std::string& route, const char* key, const std::function<std::vector<double>()>& f) {
+    caseCheck(cx, op, route, c.at(key), [&](Value& o) { std::vector<double> x = f(); o = dvecJson(x); return sameExact(x, stdOf(c.at(key))); }); };
+  auto boolean = [&](const std::string& op, const std::string& route, const char* key, const std::function<bool()>& f) {
+    caseCheck(cx, op, route, c.at(key), [&](Value& o) { bool x = f(); o = Value(x); return x == c.at(key).boolean(); }); };
+
+  if (clean)
+  {
+    // ---- VectorNumT<double>, VectorNumT<int>
+    num("VectorNumT<double>::sum", "method", "sum", [&]() { return u.sum(); });
+    num("VectorNumT<int>::sum", "method", "sum", [&]() { return (double)ui.sum(); });
+    if (n > 0)
+    {
+      num("VectorNumT<double>::minimum", "method", "mini", [&]() { return u.minimum(); });
+      num("VectorNumT<double>::maximum", "method", "maxi", [&]() { return u.maximum(); });
+      num("VectorNumT<int>::minimum", "method", "mini", [&]() { return (double)ui.minimum(); });
+      num("VectorNumT<int>::maximum", "method", "maxi", [&]() { return (double)ui.maximum(); });
+      rat("VectorNumT<double>::mean", "method", "mean", [&]() { return u.mean(); });
+      rat("VectorNumT<int>::mean", "method", "mean", [&]() { return ui.mean(); });
+    }
+    num("VectorNumT<double>::norm", "squared", "norm2", [&]() { double x = u.norm(); return x * x; }, false);
+    num("VectorNumT<double>::innerProduct", "method", "dot", [&]() { return u.innerProduct(w); });
+    num("VectorNumT<int>::innerProduct", "method", "dot", [&]() { return ui.innerProduct(wi); });
+    vec("VectorNumT<double>::add(vector)", "method", "plus", [&]() { VectorDouble x = u; x.add(w); return toStd(x); });
+    vec("VectorNumT<double>::subtract(vector)", "method", "minus", [&]() { VectorDouble x = u; x.subtract(w); return toStd(x); });
+    vec("VectorNumT<double>::multiply(vector)", "method", "times", [&]() { VectorDouble x = u; x.multiply(w); return toStd(x); });
+    vec("VectorNumT<double>::divide(vector)", "(u*w)/w", "u", [&]() { VectorDouble x = u; x.multiply(w); x.divide(w); return toStd(x); });
+    vec("VectorNumT<int>::add(vector)", "method", "plus", [&]() { VectorInt x = ui; x.add(wi); return intsToD(x); });
+    vec("VectorNumT<int>::subtract(vector)", "method", "minus", [&]() { VectorInt x = ui; x.subtract(wi); return intsToD(x); });
+    vec("VectorNumT<int>::multiply(vector)", "method", "times", [&]() { VectorInt x = ui; x.multiply(wi); return intsToD(x); });
+    vec("VectorNumT<double>::add(scalar)", "method", "plus3", [&]() { VectorDouble x = u; x.add(3.); return toStd(x); });
+    vec("VectorNumT<double>::subtract(scalar)", "method", "minus3", [&]() { VectorDouble x = u; x.subtract(3.); return toStd(x); });
+    vec("VectorNumT<double>::multiply(scalar)", "method", "times2", [&]() { VectorDouble x = u; x.multiply(2.); return toStd(x); });
+    vec("VectorNumT<double>::divide(scalar)", "(2u)/2", "u", [&]() { VectorDouble x = u; x.multiply(2.); x.divide(2.); return toStd(x); });
+    vec("VectorNumT<double>::divide(scalar)", "u/0.5", "times2", [&]() { VectorDouble x = u; x.divide(0.5); return toStd(x); });
+    boolean("VectorNumT<double>::isSame", "u vs w", "equalw", [&]() { return u.isSame(w); });
+    boolean("VectorNumT<double>::isSame", "u vs u + 0.5", "isempty", [&]() { VectorDouble x = u; x.add(0.5); return u.isSame(x); });
+    // ---- VH:: element-wise
+    vec("VH::add", "function", "plus", [&]() { return toStd(VH::add(u, w)); });
+    vec("VH::addInPlace(dest,src)", "function", "plus", [&]() { VectorDouble x = u; VH::addInPlace(x, w); return toStd(x); });
+    vec("VH::addInPlace(a,b,res)", "function", "plus", [&]() { VectorDouble x; VH::addInPlace(u, w, x); return toStd(x); });
+    vec("VH::subtract", "documented: vecb - veca", "wminusu", [&]() { return toStd(VH::subtract(u, w)); });
+    vec("VH::subtract(int)", "documented: vecb - veca", "wminusu", [&]() { return intsToD(VH::subtract(ui, wi)); });
+    vec("VH::subtractInPlace", "dest -= src", "minus", [&]() { VectorDouble x = u; VH::subtractInPlace(x, w); return toStd(x); });
+    vec("VH::subtractInPlace(int)", "dest -= src", "minus", [&]() { VectorInt x = ui; VH::subtractInPlace(x, wi); return intsToD(x); });
+    vec("VH::multiplyInPlace", "function", "times", [&]() { VectorDouble x = u; VH::multiplyInPlace(x, w); return toStd(x); });
+    vec("VH::divideInPlace", "(u*w)/w", "u", [&]() { VectorDouble x = u; VH::multiplyInPlace(x, w); VH::divideInPlace(x, w); return toStd(x); });
+    vec("VH::multiplyConstant", "function", "times2", [&]() { VectorDouble x = u; VH::multiplyConstant(x, 2.); return toStd(x); });
+    vec("VH::multiplyConstantInPlace", "function", "timesm3", [&]() { VectorDouble x(u.size(), 7.); VH::multiplyConstantInPlace(u, -3., x); return toStd(x); });
+    vec("VH::multiplyConstantSelfInPlace", "function", "timesm3", [&]() { VectorDouble x = u; VH::multiplyConstantSelfInPlace(x, -3.); return toStd(x); });
+    vec("VH::divideConstant", "(2u)/2", "u", [&]() { VectorDouble x = u; VH::multiplyConstant(x, 2.); VH::divideConstant(x, 2.); return toStd(x); });
+    vec("VH::addConstant", "function", "plus3", [&]() { VectorDouble x = u; VH::addConstant(x, 3.); return toStd(x); });
+    vec("VH::addConstant(int)", "function", "plus3", [&]() { VectorInt x = ui; VH::addConstant(x, 3); return intsToD(x); });
+    vec("VH::addMultiplyConstantInPlace", "u + 1*w", "plus", [&]() { VectorDouble x = u; VH::addMultiplyConstantInPlace(1., w, x, 0); return toStd(x); });
+    vec("VH::linearCombinationInPlace", "2u - 3w", "lincomb", [&]() { VectorDouble x(u.size(), 7.); VH::linearCombinationInPlace(2., u, -3., w, x); return n == 0 ? std::vector<double>() : toStd(x); });
+    vec("VH::cumulate", "a += 2 b + 1", "cumulate", [&]() { VectorDouble x = u; VH::cumulate(x, w, 2., 1.); return toStd(x); });
+    vec("VH::power", "square", "square", [&]() { return toStd(VH::power(u, 2.)); });
+    vec("VH::cumsum", "flagAddZero = false", "prefix", [&]() { return toStd(VH::cumsum(u, false)); });
+    vec("VH::cumsum", "flagAddZero = true", "prefix0", [&]() { return toStd(VH::cumsum(u, true)); });
+    vec("VH::cumulateInPlace", "function", "prefix", [&]() { VectorDouble x = u; VH::cumulateInPlace(x); return toStd(x); });
+    num("VH::innerProduct", "function", "dot", [&]() { return VH::innerProduct(u, w); });
+    num("VH::innerProduct(ptr)", "function", "dot", [&]() { return VH::innerProduct(u.data(), w.data(), n); });
+    num("VH::norm", "squared", "norm2", [&]() { double x = VH::norm(u); return x * x; }, false);
+    num("VH::normL1", "function", "l1", [&]() { return VH::normL1(u); });
+    if (n > 0) num("VH::norminf", "function", "linf", [&]() { return VH::norminf(u); });
+    num("VH::normDistance", "squared", "dist2", [&]() { double x = VH::normDistance(u, w); return x * x; }, false);
+    if (n > 0)
+    {
+      num("VH::product", "function", "product", [&]() { return VH::product(u); });
+      num("VH::product(int)", "function", "product", [&]() { return (double)VH::product(ui); });
+      boolean("VH::isConstant", "function", "constant", [&]() { return VH::isConstant(u); });
+      boolean("VH::isConstant(int)", "function", "constant", [&]() { return VH::isConstant(ui); });
+      num("VH::maximum(VectorVectorDouble)", "{u, w}", "vvmax", [&]() { VectorVectorDouble vv; vv.push_back(u); vv.push_back(w); return VH::maximum(vv); });
+      num("VH::minimum(VectorVectorDouble)", "{u, w}", "vvmin", [&]() { VectorVectorDouble vv; vv.push_back(u); vv.push_back(w); return VH::minimum(vv); });
+      num("VH::rangeVals", "first", "mini", [&]() { return VH::rangeVals(u).first; });
+      num("VH::rangeVals", "second", "maxi", [&]() { return VH::rangeVals(u).second; });
+    }
+    if (n == 3) vec("VH::crossProduct3D", "function", "cross", [&]() { return toStd(VH::crossProduct3D(u, w)); });
+    boolean("VH::isEqual", "u vs w", "equalw", [&]() { return VH::isEqual(u, w); });
+    boolean("VH::isEqual(int)", "u vs u", "clean", [&]() { return VH::isEqual(ui, ui); });
+    // ---- sorting and ranking
+    vec("VH::sort", "ascending", "sortasc", [&]() { return toStd(VH::sort(u, true)); });
+    vec("VH::sort", "descending", "sortdesc", [&]() { return toStd(VH::sort(u, false)); });
+    vec("VH::sort(int)", "ascending", "sortasc", [&]() { return intsToD(VH::sort(ui, true)); });
+    vec("VH::sort(int)", "descending", "sortdesc", [&]() { return intsToD(VH::sort(ui, false)); });
+    vec("VH::sortInPlace", "ascending", "sortasc", [&]() { VectorDouble x = u; VH::sortInPlace(x, true); return toStd(x); });
+    vec("VH::sortInPlace", "descending", "sortdesc", [&]() { VectorDouble x = u; VH::sortInPlace(x, false); return toStd(x); });
+    vec("VH::unique", "function", "uniq", [&]() { return toStd(VH::unique(u)); });
+    vec("VH::unique(int)", "function", "uniq", [&]() { return intsToD(VH::unique(ui)); });
+    vec("VH::orderRanks", "ascending", "orderasc", [&]() { return intsToD(VH::orderRanks(u, true)); });
+    vec("VH::orderRanks", "descending", "orderdesc", [&]() { return intsToD(VH::orderRanks(u, false)); });
+    vec("VH::orderRanks(int)", "ascending", "orderasc", [&]() { return intsToD(VH::orderRanks(ui, true)); });
+    vec("VH::orderRanks(int)", "descending", "orderdesc", [&]() { return intsToD(VH::orderRanks(ui, false)); });
+    vec("VH::sortRanks", "ascending", "ranksasc", [&]() { return intsToD(VH::sortRanks(u, true)); });
+    vec("VH::reorder", "by orderRanks", "reordered", [&]() { return toStd(VH::reorder(u, VH::orderRanks(u, true))); });
+    vec("VH::reorder(int)", "by orderRanks", "reordered", [&]() { return intsToD(VH::reorder(ui, VH::orderRanks(ui, true))); });
+    vec("VH::arrangeInPlace", "values sorted, ranks carried", "sortasc", [&]() {
+      VectorInt ranks = VH::sequence(n); VectorDouble x = u; VH::arrangeInPlace(0, ranks, x, true);
+      if (n > 0 && !sameExact(intsToD(ranks), stdOf(c.at("orderasc")))) return std::vector<double>(1, NAN);
+      return toStd(x); });
+    if (c.at("adjnoties").boolean())
+    {
+      boolean("VH::isSorted", "ascending", "sortedasc", [&]() { return VH::isSorted(u, true); });
+      boolean("VH::isSorted", "descending", "sorteddesc", [&]() { return VH::isSorted(u, false); });
+    }
+    vec("VH::filter", "[0,3[ ascending", "filterasc", [&]() { return intsToD(VH::filter(ui, 0, 3, true)); });
+    vec("VH::filter", "[0,3[ descending", "filterdesc", [&]() { return intsToD(VH::filter(ui, 0, 3, false)); });
+    vec("VH::complement", "of u within 0..4", "complin", [&]() { VectorInt sel = VH::filter(ui, 0, 5, true); return intsToD(VH::complement(VH::sequence(5), sel)); });
+  }
+  // ---- helpers defined with undefined values
+  vec("VH::concatenate", "function", "concat", [&]() { return toStd(VH::concatenate(u, w)); });
+  vec("VH::revert", "function", "reverse", [&]() { return toStd(VH::revert(u)); });
+  if (clean) vec("VH::revert(int)", "function", "reverse", [&]() { return intsToD(VH::revert(ui)); });
+  num("VH::countDefined", "function", "ndef", [&]() { return (double)VH::countDefined(u); });
+  num("VH::countUndefined", "function", "nundef", [&]() { return (double)VH::countUndefined(u); });
+  boolean("VH::hasUndefined", "function", "hasna", [&]() { return VH::hasUndefined(u); });
+  num("VH::cumul", "function", "dsum", [&]() { return VH::cumul(u); });
+  vec("VH::suppressTest", "function", "defined", [&]() { return toStd(VH::suppressTest(u)); });
+  vec("VH::fillUndef", "repl = 7", "filled", [&]() { VectorDouble x = u; VH::fillUndef(x, 7.); return toStd(x); });
+  boolean("VH::isInList", "item 2", "inlist2", [&]() { return VH::isInList(ui, 2); });
+  num("VH::whereElement", "target 2", "where2", [&]() { return (double)VH::whereElement(ui, 2); });
+  if (nd > 0)
+  {
+    num("VH::minimum", "function", "dmin", [&]() { return VH::minimum(u); });
+    num("VH::maximum", "function", "dmax", [&]() { return VH::maximum(u); });
+    num("VH::minimum", "flagAbs", "dminabs", [&]() { return VH::minimum(u, true); });
+    num("VH::maximum", "flagAbs", "dmaxabs", [&]() { return VH::maximum(u, true); });
+    num("VH::minimum(int)", "function", "dmin", [&]() { return (double)VH::minimum(ui); });
+    num("VH::maximum(int)", "function", "dmax", [&]() { return (double)VH::maximum(ui); });
+    num("VH::minimum(int)", "flagAbs", "dminabs", [&]() { return (double)VH::minimum(ui, true); });
+    num("VH::maximum(int)", "flagAbs", "dmaxabs", [&]() { return (double)VH::maximum(ui, true); });
+    rat("VH::mean", "function", "dmean", [&]() { return VH::mean(u); });
+    rat("VH::median", "function", "median", [&]() { return VH::median(u); });
+    if (c.at("wheremin").i() >= 0) num("VH::whereMinimum", "unique minimum", "wheremin", [&]() { return (double)VH::whereMinimum(u); });
+    if (c.at("wheremax").i() >= 0) num("VH::whereMaximum", "unique maximum", "wheremax", [&]() { return (double)VH::whereMaximum(u); });
+  }
+  if (c.at("hasabove").boolean())
+  {
+    num("VH::maximum", "aux, mode > 0 (vec > aux)", "maxabove", [&]() { return VH::maximum(u, false, w, 1); });
+    num("VH::minimum", "aux, mode > 0 (vec > aux)", "minabove", [&]() { return VH::minimum(u, false, w, 1); });
+  }
+  if (c.at("hasbelow").boolean())
+  {
+    num("VH::maximum", "aux, mode < 0 (vec < aux)", "maxbelow", [&]() { return VH::maximum(u, false, w, -1); });
+    num("VH::minimum", "aux, mode < 0 (vec < aux)", "minbelow", [&]() { return VH::minimum(u, false, w, -1); });
+  }
+  if (nd > 0)
+  {
+    num("VH::maximum", "aux, mode = 0 (both defined)", "dmax", [&]() { return VH::maximum(u, false, w, 0); });
+    num("VH::minimum", "aux, mode = 0 (both defined)", "dmin", [&]() { return VH::minimum(u, false, w, 0); });
+  }
+  if (nd > 1)
+  {
+    rat("VH::variance", "scaleByN = true", "varn", [&]() { return VH::variance(u, true); });
+    rat("VH::variance", "scaleByN = false", "var1", [&]() { return VH::variance(u, false); });
+    caseCheck(cx, "VH::stdv", "squared, scaleByN = false", c.at("var1"), [&](Value& o) {
+      double x = VH::stdv(u, false); o = Value(x * x); return nearD(x * x, c.at("var1").arr[0].d() / c.at("var1").arr[1].d(), 1e-12); });
+  }
+  // ---- index selections
+  if (n > 0) vec("VH::reduceOne", "index 0", "dropfirst", [&]() { return toStd(VH::reduceOne(u, 0)); });
+  if (n >= 2)
+  {
+    vec("VH::reduce", "indices {n-1, n-2}", "droplast2", [&]() { VectorInt idx; idx.push_back(n - 1); idx.push_back(n - 2); return toStd(VH::reduce(u, idx)); });
+    vec("VH::compress", "indices {n-1, 0}", "keeprev", [&]() { VectorInt idx; idx.push_back(n - 1); idx.push_back(0); return toStd(VH::compress(u, idx)); });
+    vec("VH::sample", "indices {n-1, 0}", "keeprev", [&]() { VectorInt idx; idx.push_back(n - 1); idx.push_back(0); return toStd(VH::sample(u, idx)); });
+    vec("VH::extractInPlace", "start 1", "dropfirst", [&]() { VectorDouble x(n - 1, 7.); VH::extractInPlace(u, x, 1); return toStd(x); });
+    vec("VH::mergeInPlace", "u after one value", "concat", [&]() {
+      VectorDouble x(2 * n, 7.); VH::mergeInPlace(u, x, 0); VH::mergeInPlace(w, x, n); return toStd(x); });
+  }
+  vec("VH::sample", "all (empty list)", "u", [&]() { return toStd(VH::sample(u, VectorInt())); });
+  vec("VH::flatten", "{u, w}", "concat", [&]() { VectorVectorDouble vv; vv.push_back(u); vv.push_back(w); return toStd(VH::flatten(vv)); });
+  vec("VH::unflatten", "sizes {n, n}, second part", "w", [&]() {
+    VectorInt sizes; sizes.push_back(n); sizes.push_back(n);
+    VectorVectorDouble vv = VH::unflatten(VH::concatenate(u, w), sizes);
+    return vv.size() == 2 ? toStd(vv[1]) : std::vector<double>(1, NAN); });
+  vec("VH::copy", "function", "u", [&]() { VectorDouble x(n, 7.); VH::copy(u, x); return toStd(x); });
+}
+
+static void runSeqCase(const Value& c)
+{
+  CaseCtx cx; cx.storage = "vector"; cx.caseName = "sequence";
+  cx.input = c;
+  int k = c.at("number").i(), a = c.at("ideb").i(), s = c.at("step").i();
+  caseCheck(cx, "VH::sequence(int)", "number, ideb, step", c.at("seq"), [&](Value& o) {
+    std::vector<double> x = intsToD(VH::sequence(k, a, s)); o = dvecJson(x); return sameExact(x, c.at("seq").doubles()); });
+  if (s > 0 && k > 0)
+    caseCheck(cx, "VH::sequence(double)", "from, to, step", c.at("upto"), [&](Value& o) {
+      std::vector<double> x = toStd(VH::sequence((double)a, (double)c.at("last").i(), (double)s)); o = dvecJson(x);
+      return sameExact(x, c.at("upto").doubles()); });
+  caseCheck(cx, "VH::initVDouble/fill", "constant", Value(k), [&](Value& o) {
+    VectorDouble x = VH::initVDouble(k, 2.5); VectorDouble y2; VH::fill(y2, 2.5, k);
+    if ((int)x.size() != k) return false;
+    for (int i = 0; i < k; i++) if (x[i] != 2.5 || (k > 0 && y2[i] != 2.5)) return false;
+    return true; });
+}
+
+int mainVec(int argc, char** argv)
+{
+  setupLibrary(0);
+  Value doc = vj::readFile(argv[2]);
+  g_na = doc.at("na").d();
+  OUT = fopen(argv[3], "w");
+  if (!OUT) throw std::runtime_error("cannot write output");
+  const Value& cases = doc.at("cases");
+  // batches of cases in child processes
+  size_t total = cases.arr.size() + doc.at("seqs").arr.size();
+  size_t batch = 64;
+  for (size_t b0 = 0; b0 < total; b0 += batch)
+  {
+    fflush(OUT);
+    int fd[2];
+    if (pipe(fd) != 0) return 3;
+    pid_t pid = fork();
+    if (pid == 0)
+    {
+      close(fd[0]);
+      STATS.clear();
+      for (size_t i = b0; i < std::min(total, b0 + batch); i++)
+      {
+        if (i < cases.arr.size()) runVecCase(cases.arr[i]); else runSeqCase(doc.at("seqs").arr[i - cases.arr.size()]);
+        stat("cases");
+      }
+      fflush(OUT);
+      FILE* w = fdopen(fd[1], "w");
+      for (auto& kv : STATS) fprintf(w, "%s\t%ld\n", kv.first.c_str(), kv.second);
+      fclose(w);
+      _exit(0);
+    }
+    close(fd[1]);
+    FILE* r = fdopen(fd[0], "r");
+    char key[300]; long v;
+    while (fscanf(r, "%299[^\t]\t%ld\n", key, &v) == 2) STATS[key] += v;
+    fclose(r);
+    int status = 0;
+    waitpid(pid, &status, 0);
+    if (!(WIFEXITED(status) && WEXITSTATUS(status) == 0))
+      caseReport("crash", "vector batch", "vector", "batch process died", "batch " + std::to_string(b0), Value(), Value(), Value(WIFSIGNALED(status) ? WTERMSIG(status) : -1));
+  }
+  writeStats();
+  fclose(OUT);
+  return 0;
+}
 // CASES-END
